@@ -50,7 +50,7 @@ var keyUniverse = []struct{ cls, key string }{
 	{"plain", "a"}, {"empty", ""}, {"quote", "a'b"}, {"dquote", "a\"b"}, {"backslash", "a\\b"}, {"control", "a\nb"}, {"ctl01", "a\x01b"},
 	{"nonascii", "é"}, {"rbracket", "a]b"}, {"lbracket", "a[b"}, {"space", "a b"}, {"dot", "a.b"}, {"number", "12"}, {"negnum", "-1"},
 	{"operator", "=="}, {"star", "*"}, {"at", "@"}, {"dollar", "$x"}, {"comma", "a,b"}, {"colon", "a:b"}, {"question", "?a"}, {"paren", "(a)"},
-	{"del", "a\x7fb"}, {"u2028", "a b"}, {"badutf8", "a\xffb"},
+	{"del", "a\x7fb"}, {"cr", "a\rb"}, {"formfeed", "a\fb"}, {"backspace", "a\bb"}, {"tab", "a\tb"}, {"u2028", "a b"}, {"badutf8", "a\xffb"},
 }
 
 func c14doc() any {
@@ -349,7 +349,7 @@ func genC14(tier string, n int, seed int64) {
 		}
 	}
 	// ---- constants of every kind, compared with the element itself
-	consts := []any{nil, true, false, int64(0), int64(-7), int64(1234567), 1.5, 2.0, -0.25, 1e21, 1e-7, 0.1234567, 1234567.25, "", "a", "a'b", "a\"b", "a\\b", "a\nb", "a\tb", "a\x01b", "é", "a b", "a/b",
+	consts := []any{nil, true, false, int64(0), int64(-7), int64(1234567), 1.5, 2.0, -0.25, 1e21, 1e-7, 0.1234567, 1234567.25, "", "a", "a'b", "a\"b", "a\\b", "a\nb", "a\tb", "a\rb", "a\fb", "a\bb", "a\x01b", "é", "a b", "a/b",
 		[]any{}, []any{int64(1)}, []any{int64(1), "a'b", 1.5, true, nil}}
 	for _, cv := range consts {
 		a := absOf(cv)
